@@ -244,7 +244,7 @@ let gen_tokens r ~tier oc =
     let rec go k acc =
       let l = [ bs; nm h ] @ List.rev acc in
       emit_tokens oc "short" (l @ [ eof ]);
-      if thorough || Hashtbl.hash (h, List.length acc, List.map (fun t -> t.t_val) acc) mod 3 = 0 then emit_tokens oc "short-noeof" l;
+      if thorough || acc = [] || Hashtbl.hash (h, List.length acc, List.map (fun t -> t.t_val) acc) mod 3 = 0 then emit_tokens oc "short-noeof" l;
       if k > 0 then Array.iter (fun t -> go (k - 1) (t :: acc)) alpha in
     go maxlen []) handler_names;
   (* bodies closed by every end tag, cut at every point, without EOF: where the error messages index *)
@@ -442,7 +442,7 @@ let gen_render r ~tier oc =
         "{% include $ %}"; "{% include $ ignore missing %}"; "{% include 'inc' with $ %}"; "{% include 'inc' with {'a': $} only %}"; "{% extends $ %}";
         "{% import $ as q %}"; "{% from $ import m %}"; "{{ [$, $]|join }}"; "{{ {'k': $}|length }}"; "{{ {($): 1}|length }}"; "{% do $ %}";
         "{{ $|slice(1, 9223372036854775807) }}"; "{{ $|slice(-1) }}"; "{{ $|slice(0) }}"; "{{ $|batch(0) }}"; "{{ $|batch(-1, 'x') }}"; "{{ $|split('') }}";
-        "{{ $|format($) }}"; "{{ $|date($) }}"; "{{ $|number_format($) }}"; "{{ $|round($) }}"; "{{ $|json_encode }}"; "{{ $|merge($) }}"; "{{ $|sort|reverse|first }}";
+        "{{ $|format($) }}"; "{{ $|date($) }}"; "{{ $|number_format($) }}"; "{{ $|round($) }}"; "{{ $|json_encode }}"; "{{ $|merge($) }}"; "{{ $|merge([1]) }}"; "{{ $|merge(['x']) }}"; "{{ $|merge(ss) }}"; "{{ $|merge(is) }}"; "{{ $|merge({'a': 1}) }}"; "{{ $|merge(msi) }}"; "{{ $|merge(mis) }}"; "{{ $|sort|reverse|first }}";
         "{{ $|keys|join }}"; "{{ $|column('a')|join }}"; "{{ $|replace({'a': $}) }}"; "{{ $|default($)|length }}"; "{{ $|join($) }}"; "{{ $ is same as($) }}";
         "{{ $ is divisible by($) }}"; "{{ $ is sameas([]) }}"; "{{ [] in $ }}"; "{{ {} in $ }}"; "{{ $ in long }}"; "{{ $ in longany }}"; "{{ $ not in lol }}";
         "{{ range($, 3) }}"; "{{ range(0, 3, $) }}"; "{{ random($) }}"; "{{ random($, $) }}"; "{{ cycle($, 1) }}"; "{{ cycle([1, 2], $) }}"; "{{ max($) }}"; "{{ min($, $) }}";
